@@ -1882,7 +1882,9 @@ theorem mintAwards_big {m : Prop} {s s' : State} (h : BigP m s) (hs : mintAwards
 def burnOne (st : State) (e : Addr × Int) : Option State :=
   match aget st.vals e.1 with
   | none => none
-  | some v => some (slash st e.1 st.height (if v.status == 2 then power v.tokens else 0) e.2)
+  | some v =>
+    if v.status == 2 && !Arith.isInt64 (power v.tokens) then none
+    else some (slash st e.1 st.height (if v.status == 2 then power v.tokens else 0) e.2)
 
 theorem burnValidators_eq (s : State) :
     burnValidators s =
@@ -1908,7 +1910,9 @@ theorem burnValidators_big {m : Prop} {s s' : State} (h : BigP m s) (hs : burnVa
         simp only [burnOne] at hst
         split at hst
         · simp at hst
-        · simp only [Option.some.injEq] at hst
+        · split at hst
+          · simp at hst
+          simp only [Option.some.injEq] at hst
           subst hst
           obtain ⟨k1, k2, k3, k4⟩ := slash_big hP.1 e.1 st.height _ e.2
           exact ⟨⟨k1, fun hm => k4 (hP.2 hm)⟩, k2⟩) s s1 h hf
